@@ -7,7 +7,7 @@ spec/Blte.tla (builder state machine at chunk granularity + byte-level reader of
   -> T_Blte judges every event (binding T); the table is read by Blte!ParseTable from the raw bytes.
 Seeded random programs with real chunk sizes and payloads up to 300 KiB go through the same monitor (digest pairs).
 """
-import glob, hashlib, json, os
+import glob, hashlib, json, os, resource, subprocess
 from concurrent.futures import ThreadPoolExecutor
 from . import lib
 
@@ -15,7 +15,8 @@ PROP = "C01"
 MODULE_MC = "MC_Blte"
 MODULE_T = "T_Blte"
 DRV = "drv_blte"
-ALL_FIDS = ["F01a", "F01b", "F01c", "F01d", "F01e", "F01f"]
+ALL_FIDS = ["F01a", "F01b", "F01c", "F01d", "F01e", "F01f", "F01g"]
+MODEL_FIDS = ALL_FIDS[:6]                      # deviations that exist at the model's granularity (F01g: monitor only)
 IDENTITY_FIDS = {"F01a", "F01b", "F01d"}       # refute IdentityInv; the others refute TableInv
 CSMALL = 8
 OBS = ("seq", "res", "err", "msg", "dlen", "data", "content", "total", "bytes", "head", "ranges_ok", "ranges", "md5s",
@@ -168,6 +169,52 @@ def replay(ctx, kd):
     return 1 if v["violations"] else 0
 
 
+# --------------------------------------------------------------------------- chunk size 0
+ZERO_CS = [
+    {"inline": True, "ops": [{"op": "compress", "len": 3, "fb": "x", "mode": "N", "n": 0}]},
+    {"inline": True, "ops": [{"op": "with_chunk_size", "n": 0, "checked": False}, {"op": "add_data", "len": 3, "fb": "x"}, {"op": "build", "table": "std"}]},
+    {"inline": True, "ops": [{"op": "with_chunk_size", "n": 0, "checked": False}, {"op": "add_mixed_data", "len": 3, "fb": "x", "cipher": "S"}, {"op": "build", "table": "std"}]},
+    # controls: an empty payload is one chunk whatever the chunk size; calls that do not chunk are unaffected
+    {"inline": True, "ops": [{"op": "compress", "len": 0, "fb": "x", "mode": "Z", "n": 0}]},
+    {"inline": True, "ops": [{"op": "with_chunk_size", "n": 0, "checked": False}, {"op": "add_data", "len": 0, "fb": "x"},
+                             {"op": "add_encrypted_data", "len": 3, "fb": "x", "cipher": "A", "idx": 1}, {"op": "build", "table": "std"}]},
+]
+
+
+def zero_chunk_size(ctx, kd):
+    """Chunk size 0 cannot be executed inside the shared driver process (the chunking loops would eat the machine's
+    memory): every program runs alone in a driver process limited to 1.5 GB of address space and 30 s.  A process
+    killed by the limit / the time-out is recorded as the outcome of the call that was in flight."""
+    trace = ctx.path("trace_zero.ndjson")
+    lines = []
+    for i, prog in enumerate(ZERO_CS):
+        p = ctx.path(f"prog_zero_{i}.ndjson")
+        open(p, "w").write(json.dumps(prog) + "\n")
+        t = ctx.path(f"trace_zero_{i}.ndjson")
+        open(t, "w").close()
+        outcome = None
+        try:
+            r = subprocess.run([lib.bin_path(DRV), "--programs", p, "--out", t, "--direct"], stdout=subprocess.DEVNULL, stderr=subprocess.PIPE,
+                               timeout=30, preexec_fn=lambda: resource.setrlimit(resource.RLIMIT_AS, (1500 << 20, 1500 << 20)))
+            if r.returncode != 0:
+                if b"memory allocation" not in r.stderr and r.returncode not in (-6, -9, 134, 137):
+                    raise lib.ToolError(f"driver failed on chunk-size-0 program {i}: rc={r.returncode} {r.stderr[-300:]!r}")
+                outcome = "abort"
+        except subprocess.TimeoutExpired:
+            outcome = "hang"
+        evs = lib.read_lines(t)
+        if outcome:
+            k = len(evs) - 1                      # calls that returned
+            if k < 0 or k >= len(prog["ops"]):
+                raise lib.ToolError(f"chunk-size-0 program {i}: cannot tell which call was in flight")
+            e = dict(prog["ops"][k], seq=k + 1, res=outcome, dlen=prog["ops"][k].get("len", 0))
+            evs.append(json.dumps(e, separators=(",", ":")))
+        lines += evs
+    open(trace, "w").write("\n".join(lines) + "\n")
+    judge_trace(ctx, trace, "chunk size 0 (one driver process per program, 1.5 GB / 30 s)", kd)
+    return len(ZERO_CS)
+
+
 # --------------------------------------------------------------------------- binding self-test
 def selftest(ctx, trace, kd):
     """Corrupt one logged field / drop one event: the monitor must flag exactly that."""
@@ -232,7 +279,7 @@ def run(ctx):
     for family, depth in plan:
         mc_ideal(ctx, family, min(depth, 3) if family == "seq" and ctx.quick else depth)
     with ThreadPoolExecutor(max_workers=3) as ex:
-        wits = list(ex.map(lambda f: mc_witness(ctx, f, kd), kd))
+        wits = list(ex.map(lambda f: mc_witness(ctx, f, kd), [f for f in kd if f in MODEL_FIDS]))
         reps = list(ex.map(lambda w: replay_witnesses(ctx, [w], kd), wits))
     ctx.cov["witnesses"] = {k: v for r in reps for k, v in r.items()}
     for fid, w, r in wits:
@@ -274,6 +321,10 @@ def run(ctx):
     ls = lib.read_lines(dump)
     ctx.cov["samples"].append({"source": f"random seed={ctx.seed}", "program": json.loads(ls[0])})
     judge_trace(ctx, trace, f"random seed={ctx.seed}", kd, max_events=1500)
+    # 4. chunk size 0
+    n0 = zero_chunk_size(ctx, kd)
+    total += n0
+    distinct += n0
     ctx.cov["traces_validated_against_impl"] = total
     ctx.cov["evaluations"] = total
     ctx.cov["distinct_nontrivial"] = distinct
@@ -288,7 +339,8 @@ def run(ctx):
         "zlib / LZ4 / Salsa20 / ARC4 themselves are exercised (the identity is on real bytes) but not modelled; the decoder is the "
         "library's own (plus a TLA+ decoder for containers of stored chunks)",
         "payloads above ~700 container bytes are compared as (length, MD5) pairs computed by the driver",
-        "chunk size 0 (with_chunk_size_unchecked(0): add_data never terminates) and payloads >= 4 GiB are not executed",
+        "chunk size 0 is only executed in 5 hand-written programs, each in its own memory-limited driver process; payloads >= 4 GiB "
+        "and block indices >= 2^31 are not executed",
     ]
     return lib.finish(ctx, "model_checking",
                       rule="programs = complete builder call sequences enumerated by TLC from Blte.tla (history variable; complete = built or a "
